@@ -111,7 +111,7 @@ func setOf(hs []string) map[string]bool {
 
 func CheckC09(run *evid.Run) {
 	total := pick(run.Tier, 800, 6000)
-	run.Rule = "seeded histories (C01 generator, pointer counts up to 64 so that reference links exist); at seeded states (all states in thorough) each replica is rebuilt without limit through all four loaders (manifest, JSON head list, head entries, single head hash when single-headed) against the gated store: concurrency in {1,2,3,8,32} x release policy in {fifo, lifo, random, heads-last, oldest-first, newest-first} plus ungated runs; id, entry set, heads and (when the ordering is total) value sequence must equal the source replica's observation. Evidence counts distinct realised completion orders (digest of the get-return sequence). thorough runs in race-instrumented child processes. Non-trivial = state with >=2 heads or >=8 entries reloaded under a gated policy; distinct = (history shape digest, loader, concurrency, policy)"
+	run.Rule = "seeded histories (C01 generator incl. refused operations and forks in every other history, pointer counts up to 64 so that reference links exist; a quarter written and read back with the link-encrypting codec); no-length-limit is expressed by no limit or by the conventional -1; at seeded states (all states in thorough) each replica is rebuilt without limit through all four loaders (manifest, JSON head list, head entries, single head hash when single-headed) against the gated store: concurrency in {1,2,3,8,32} x release policy in {fifo, lifo, random, heads-last, oldest-first, newest-first} plus ungated runs; id, entry set, heads and (when the ordering is total) value sequence must equal the source replica's observation. Evidence counts distinct realised completion orders (digest of the get-return sequence). thorough runs in race-instrumented child processes. Non-trivial = state with >=2 heads or >=8 entries reloaded under a gated policy; distinct = (history shape digest, loader, concurrency, policy)"
 	run.Assumptions = []string{"arrival order is varied by parking Get calls and releasing them one at a time; timing only decides which order is realised, never a verdict"}
 	runCases(run, "C09", total, run.Tier == "thorough", true, ChildOpts{})
 }
@@ -120,7 +120,11 @@ func init() { registerCases("C09", c09Case) }
 
 func c09Case(run *evid.Run, i int, j *Journal) {
 	rng := rand.New(rand.NewSource(run.Seed*7368787 + int64(i)))
-	h := hx.Gen(run.Seed, i, hx.GenOpts{MaxSteps: pick(run.Tier, 32, 60), Orders: []string{"default", "hash", "hash"}})
+	codec := "cbor"
+	if i%4 == 3 {
+		codec = "link" // a same-key reader must be able to rebuild the log too
+	}
+	h := hx.Gen(run.Seed, i, hx.GenOpts{MaxSteps: pick(run.Tier, 32, 60), Orders: []string{"default", "hash", "hash", "revhash"}, Codecs: []string{codec}, Failures: i%2 == 1})
 	for k := range h.Steps {
 		if h.Steps[k].Op == "append" && rng.Intn(3) == 0 {
 			h.Steps[k].PC = []int{8, 16, 64}[rng.Intn(3)]
@@ -156,9 +160,16 @@ func c09Case(run *evid.Run, i int, j *Journal) {
 			var loaded *ipfslog.IPFSLog
 			var err error
 			returned, dump := true, ""
+			// "without a length limit" is expressed either by no limit at all or by the conventional -1
+			var length *int
+			if rng.Intn(2) == 0 {
+				minus1 := -1
+				length = &minus1
+				run.Count("loads_with_explicit_length_-1", 1)
+			}
 			load := func() {
 				returned, dump = callHang(x.W.Store, time.Second, func() {
-					loaded, err = x.W.Reload(l, loader, x.Writer[s.R], &hx.LoadOpts{Concurrency: conc})
+					loaded, err = x.W.Reload(l, loader, x.Writer[s.R], &hx.LoadOpts{Concurrency: conc, Length: length})
 				})
 			}
 			if pol == "ungated" {
@@ -169,7 +180,8 @@ func c09Case(run *evid.Run, i int, j *Journal) {
 				run.Count("gated_loads", 1)
 			}
 			run.Count("loads_"+loader, 1)
-			d := det("loader", loader, "policy", pol, "concurrency", conc)
+			d := det("loader", loader, "policy", pol, "concurrency", conc, "codec", codec, "explicit_minus_one", length != nil)
+			run.Count("loads_codec_"+codec, 1)
 			wit := func() map[string]any { m := histSample(h); m["at"] = where; return m }
 			if !returned {
 				if dump == "" {
